@@ -18,7 +18,7 @@ func propC11() Property {
 		Explanation: "R1 (classification tables vs shipped specs): every header field of every spec/*.xml is in Tag.IsHeader's case set, every trailer field in IsTrailer's, and no field that occurs in the body of any shipped message (components and groups expanded) is in either. " +
 			"R2 (leading order): the parse routine extracts BeginString(8), BodyLength(9), MsgType(35) with those constants in that order, returns the error of each on its non-nil edge, the specific extractor rejects a different tag, and all three precede every other field extraction. " +
 			"R3 (length guard): a parse error is produced exactly under Σ field lengths ≠ BodyLength(9) (unless the message carried XMLData), and when tag 9 cannot be read. R4 (= C10-R3): reader and writer exclude exactly {8,9,10} from the length. " +
-			"R5 (section routing): in the field loop a field is added to Header under isHeaderField, to Trailer under ¬header ∧ isTrailerField, to Body otherwise; the classification helpers consult the Tag tables and the transport dictionary only, and every call passes the transport dictionary. R6: TagValue.parse takes the FIRST '=' as the separator: its fixed-position fast path probes ascending positions and records the position it probed. R7: every FieldMap accessor call in the engine with a constant tag on a message's Header / Body / Trailer addresses the section Tag.IsHeader / IsTrailer assign to that tag. R8: Header, Body and Trailer are each cleared before the parse files a field into them (a reused Message exposes only what is on the wire); the flag that lifts the BodyLength comparison is set only on the path that extracted an XML payload with the length-driven extractor. R9: every window of the raw input that the field parser stores into the parsed TagValue is a three-index slice whose capacity ends where its length ends.",
+			"R5 (section routing): in the field loop a field is added to Header under isHeaderField, to Trailer under ¬header ∧ isTrailerField, to Body otherwise; the classification helpers consult the Tag tables and the transport dictionary only, and every call passes the transport dictionary. R6: TagValue.parse takes the FIRST '=' as the separator: its fixed-position fast path probes ascending positions and records the position it probed. R7: every FieldMap accessor call in the engine with a constant tag on a message's Header / Body / Trailer addresses the section Tag.IsHeader / IsTrailer assign to that tag. R8: Header, Body and Trailer are each cleared before the parse files a field into them (a reused Message exposes only what is on the wire); the flag that lifts the BodyLength comparison is set only on the path that extracted an XML payload with the length-driven extractor. R9: every window of the raw input that the field parser stores into the parsed TagValue is a three-index slice whose capacity ends where its length ends. R10: the XMLDataLen pick-up that arms the length-driven extraction runs for every parsed field: its reach condition contains no classification of the field (the group sub-parser may already have filed the field).",
 		NotDecided: "slicing arithmetic of field values, dictionary-guided group parsing (C13), that raw bytes are returned unchanged.",
 		Rules: []RuleDef{
 			{ID: "C11-R1", Desc: "header/trailer tag tables vs shipped specs", Min: 9, Run: c11R1},
@@ -30,6 +30,7 @@ func propC11() Property {
 			{ID: "C11-R7", Desc: "constant-tag accesses address the section the parser files the tag in", Min: 20, Run: sectionAccessRule},
 			{ID: "C11-R8", Desc: "sections cleared before the parse; BodyLength exemption only after XML extraction", Min: 4, Run: c11R8},
 			{ID: "C11-R9", Desc: "parsed field views are capacity-clipped", Min: 2, Run: c11R9},
+			{ID: "C11-R10", Desc: "the XMLDataLen pick-up runs for every field", Min: 1, Run: c11R10},
 		},
 	}
 }
